@@ -162,6 +162,11 @@ RAW_BODY = [b"", b"--b--", b"--b--\r\n", b"--b\r\n--b--", b"--b\r\n\r\n--b--", b
             b"--b\r\nContent-Disposition: form-data; name*=undefined''x\r\n\r\nv\r\n--b--", b"--b\r\nA: b\x00\r\n\r\nv\r\n--b--",
             b"preamble--b\r\nContent-Disposition: form-data; name=a\r\n\r\nv\r\n--b--", b"--b\r\nContent-Disposition: form-data; name=a\r\n\r\nv\r\n--b--epilogue--b--",
             b"--b\r\nContent-Disposition: form-data; name=a\n\nv\r\n--b--", b"--b\r\nContent-Disposition: form-data; name=a\r\nContent-Disposition: x\r\n\r\nv\r\n--b--",
+            b"--b\r\nContent-Disposition: form-data; name*0=a; name*=b\r\n\r\nv\r\n--b--",
+            b"--b\r\nContent-Disposition: form-data; x*1=a; x*=b; name=n\r\n\r\nv\r\n--b--",
+            b"--b\r\nContent-Disposition: form-data; name*=idna''xn--a..b\r\n\r\nv\r\n--b--",
+            b"--b\r\nContent-Disposition: form-data; name*=a%00b''x\r\n\r\nv\r\n--b--",
+            b"--b\r\nContent-Disposition: form-data; name=\xff\r\n\r\nv\r\n--b--",
             b"a=1&b=2", b"a=1&a=2&&=x&y", b"%zz=%41+%", b"\xff=\xfe&\xe9", b"a=b=c;d=e", b"a", b"="]
 
 
@@ -196,7 +201,7 @@ def gen_cases(rng, tier):
                     body = body[:i] + rng.choice([b"", b"\r\n", b"--b", b"\"", b";", b"\\", bytes([rng.randrange(256)])]) + body[i + rng.choice([0, 1]):]
         elif k < 0.6:
             body = bytes(rng.choice(b"-b\r\n:;=\"a \\*'") for _ in range(rng.randint(0, 40)))
-        yield {"kind": "raw", "ct": rng.choice(RAW_CT), "body": body.hex(), "ce": rng.random() < 0.05,
+        yield {"kind": "raw", "ct": RAW_CT[0] if rng.random() < 0.5 else rng.choice(RAW_CT), "body": body.hex(), "ce": rng.random() < 0.05,
                "cfg": {"enabled": rng.random() > 0.03, "max_parts": rng.choice([100, 100, 0, 1, 2]), "max_hdr": rng.choice([10240, 10240, 0, 10, 45])}}
     # every single-byte mutation of a few small bodies (complete for these bodies)
     for _ in range(n_mut_bodies):
